@@ -234,6 +234,9 @@ func ToItemCollection(it Item) (*ItemCollection, error) {
 		}
 		return &iris, nil
 	case *IRIs:
+		if i == nil {
+			return nil, nil
+		}
 		iris := make(ItemCollection, len(*i))
 		for j, ob := range *i {
 			iris[j] = ob
